@@ -2,7 +2,7 @@
 H08-ops: one real simulation_state_ops operation on an arbitrary index-consistent pre-state.
 
 CASE = entity kind (0 vehicle, 1 request, 2 station, 3 base) * 4 + op (0 add, 1 modify, 2 remove, 3 pop[vehicle only])
-Symbolic: cells of up to two entities of the kind (A, E [same search cell as A], B, C), presence of the
+Symbolic: cells of up to two entities of the kind (A, E [same search cell as A], B, C, a rim cell of A's search cell), presence of the
 second, which id the operation names (present ones or an absent id), the new cell, and
 whether a non-positional attribute changes.
 
@@ -28,6 +28,13 @@ OP = CASE % 4
 EK_NAME = ("vehicle", "request", "station", "base")
 OP_NAME = ("add", "modify", "remove", "pop")
 CELL_IDX = (0, 4, 1, 2)  # A, E (same search cell as A), B, C
+# ... and a cell on the RIM of A's search cell: its centroid, re-indexed at the search resolution, falls into the neighbouring
+# search hexagon (about 6 % of the fine cells), so "parent cell" and "cell of the centre point" disagree
+RIM = [c for c in sorted(h3.k_ring(A.CELL_A, 80))
+       if h3.h3_to_parent(c, A.SEARCH_RES) == h3.h3_to_parent(A.CELL_A, A.SEARCH_RES)
+       and h3.geo_to_h3(*h3.h3_to_geo(c), A.SEARCH_RES) != h3.h3_to_parent(c, A.SEARCH_RES)][0]
+POSX = tuple(A.POS[i] for i in CELL_IDX) + (A.NET.position_from_geoid(RIM),)
+N_CELLS = len(POSX)
 IDS = {0: ("v0", "v1", "v10"), 1: ("r0", "r1", "r2"), 2: ("s0", "s1", "s2"), 3: ("b0", "b1", "b2")}[EK]
 PROTO = {0: A.V0, 1: A.R0, 2: A.S0, 3: A.B0}[EK]
 COLL = ("vehicles", "requests", "stations", "bases")[EK]
@@ -40,14 +47,14 @@ EMPTY = A.SIM0._replace(
 
 
 def _cell(i):
-    for k in range(4):
+    for k in range(N_CELLS):
         if i == k:
-            return CELL_IDX[k]
+            return k
     return None
 
 
 def _entity(eid, cell):
-    return replace(PROTO, id=eid, position=A.POS[cell])
+    return replace(PROTO, id=eid, position=POSX[cell])
 
 
 def _pre(c0, c1, c2, p1, p2):
@@ -89,7 +96,7 @@ def _apply_op(sim, OP, target_id, ncell, touch):
 
 def h_idx(c0: int, c1: int, p1: bool, tgt: int, nc: int, touch: bool) -> bool:
     """
-    pre: 0 <= c0 <= 3 and 0 <= c1 <= 3 and 0 <= tgt <= 2 and 0 <= nc <= 3
+    pre: 0 <= c0 <= 4 and 0 <= c1 <= 4 and 0 <= tgt <= 2 and 0 <= nc <= 4
     post: _
     """
     if OP == 3 and EK != 0:
@@ -138,7 +145,7 @@ def h_idx(c0: int, c1: int, p1: bool, tgt: int, nc: int, touch: bool) -> bool:
 def h_idx_reach(c0: int, c1: int, p1: bool, tgt: int, nc: int, touch: bool) -> bool:
     """
     reachability twin (must be refuted): some operation on a present entity succeeds
-    pre: 0 <= c0 <= 3 and 0 <= c1 <= 3 and 0 <= tgt <= 2 and 0 <= nc <= 3
+    pre: 0 <= c0 <= 4 and 0 <= c1 <= 4 and 0 <= tgt <= 2 and 0 <= nc <= 4
     post: _
     """
     if OP == 3 and EK != 0:
@@ -164,7 +171,7 @@ def h_idx2(c1: int, t1: int, n1: int, t2: int, n2: int, o2: int) -> bool:
     """
     if OP > 2:
         return True
-    a, b, m1, m2 = CELL_IDX[0], _cell(c1), _cell(n1), _cell(n2)
+    a, b, m1, m2 = 0, _cell(c1), _cell(n1), _cell(n2)
     op2 = None
     for k in range(3):
         if o2 == k:
